@@ -6,7 +6,7 @@ from .. import rungrid
 ID = "C03"
 LEVEL = "model_checking"
 RULE = ("all rooted DAG shapes n<=3 (4 thorough) x listing orders x kinds x every non-empty subset of failing tasks with failure "
-        "kind in {exit code, killed by signal, launch OSError, combine conflict} x jobs 1..3 x {default, --stop-early}, explored "
+        "kind in {exit code, killed by signal, launch OSError before the fork, exec failure after the fork (a child that exits 255, reaped by the SIGCHLD handler or by Popen), combine conflict} x jobs 1..3 x {default, --stop-early}, explored "
         "under the virtual kernel over all completion orders (+1 deviation for small graphs); oracle = reference outcome function "
         "(skipped iff a needed direct dependency did not succeed); distinct = distinct (case, terminal event order)"
         ' --stop-early is additionally explored with 3-4 parallel leaves at deviation 1 (exits delivered in a batch: a task reaped but not yet processed when the failure is observed).')
@@ -29,9 +29,9 @@ def mon(s, obs):
 
 def failure_kinds(i, kinds, g):
     if kinds[i] == "cmd":
-        return [["exit", 10 + i], ["signal", 9], ["launch"], ["mkdir"]]
+        return [["exit", 10 + i], ["signal", 9], ["launch"], ["mkdir"], ["execfail"]]
     if kinds[i] == "exp":
-        return [["exit", 10 + i], ["signal", 9], ["launch"]]
+        return [["exit", 10 + i], ["signal", 9], ["launch"], ["execfail"]]
     if kinds[i] == "combine" and any(kinds[j] in ("cmd", "exp", "combine") for j in g[i]):
         return [["conflict"]]
     return []
@@ -71,7 +71,7 @@ def items(tier):
     for g in ([[1, 2, 3, 4], [], [], [], []], [[1, 2, 3, 4, 5], [], [], [], [], []]):
         n = len(g)
         for failing in range(1, n):
-            for fk in (["launch"], ["exit", 3], ["mkdir"]):
+            for fk in (["launch"], ["exit", 3], ["mkdir"], ["execfail"]):
                 for jobs in (2, 3):
                     for kinds in (["cmd"] * n, ["group"] + ["exp"] * (n - 1)):
                         if fk == ["mkdir"] and kinds[failing] != "cmd":
@@ -82,7 +82,7 @@ def items(tier):
     for g in ([[1, 2, 3], [], [], []], [[1, 2, 3, 4], [], [], [], []]):
         n = len(g)
         for failing in range(1, n):
-            for fk in (["exit", 3], ["signal", 9], ["launch"], ["mkdir"]):
+            for fk in (["exit", 3], ["signal", 9], ["launch"], ["mkdir"], ["execfail"]):
                 for kinds in (["cmd"] * n, ["group"] + ["exp"] * (n - 1)):
                     if fk == ["mkdir"] and kinds[failing] != "cmd":
                         continue
